@@ -182,6 +182,8 @@ def gen_cases(rng, tier):
     for l in _lists(tuples, 1):
         if l:
             cases.append(mk(0, 0, LHS_XY, [1, rng.choice([0, 1]), 0], [0], 1, [l], "nulltype"))
+            if len(cases) % 3 == 0:  # literal rendering of tuples for a NullType parameter: AttributeError (known)
+                cases.append(mk(1, 0, LHS_XY, [1, rng.choice([0, 1]), 0], [0], 1, [l], "nulltype"))
     # --- random longer lists
     n_rand = 1200 if tier == "thorough" else 150
     for _ in range(n_rand):
